@@ -96,10 +96,10 @@ def main():
             override = a[i + 1].split(","); i += 2
         else:
             files.append(a[i]); i += 1
-    scratch = f"/tmp/mut/repo{k}"
+    scratch = f"/tmp/mut/repo{k}" + os.environ.get("MUT_TAG", "")
     os.makedirs("/tmp/mut", exist_ok=True)
     sh(f"rm -rf {scratch}; mkdir -p {scratch}; rsync -a --exclude .git /repo/ {scratch}/")
-    res = open(f"/tmp/mut/results{k}.jsonl", "a")
+    res = open(f"/tmp/mut/results{k}" + os.environ.get("MUT_TAG", "") + ".jsonl", "a")
     rnd = random.Random(seed * 1000 + k)
     files = [f for j, f in enumerate(sorted(files)) if j % n == k]
     for rel in files:
